@@ -9,6 +9,11 @@ import z3
 Z3_TIMEOUT_MS = int(os.environ.get('PYVC_Z3_TIMEOUT_MS', '20000'))
 CVC5_TIMEOUT_S = int(os.environ.get('PYVC_CVC5_TIMEOUT_S', '30'))
 CVC5 = '/usr/bin/cvc5'
+Z3CLI = '/usr/bin/z3'
+
+# Quantifier instantiation by E-matching only in the in-process solver (fast, Boogie-style); an `unknown` is retried
+# by the z3 CLI with model-based instantiation and by cvc5 on the exported SMT-LIB text.
+z3.set_param('smt.mbqi', False)
 
 
 def check(pc, goal, timeout_ms=None, want_model=True, observe=()):
@@ -37,9 +42,34 @@ def check(pc, goal, timeout_ms=None, want_model=True, observe=()):
         except Exception:
           pass
     return 'sat', model, 'z3', dt
-  # unknown: try cvc5 on the exported problem
+  # unknown: z3 with MBQI (CLI), then cvc5, on the exported problem
+  st = cli_check(s, [Z3CLI if os.path.exists(Z3CLI) else 'z3', '-T:%d' % max(5, (timeout_ms or Z3_TIMEOUT_MS) // 1000), 'smt.mbqi=true'])
+  if st in ('unsat', 'sat'):
+    # MBQI only answers sat when its model satisfies the quantifiers; no model is extracted from the CLI run
+    return st, ({} if st == 'sat' else None), 'z3-cli-mbqi', time.time() - t0
   st = cvc5_check(s)
   return st, None, 'cvc5' if st != 'unknown' else 'z3+cvc5', time.time() - t0
+
+
+def cli_check(solver, cmd):
+  try:
+    text = solver.to_smt2()
+  except Exception:
+    return 'unknown'
+  with tempfile.NamedTemporaryFile('w', suffix='.smt2', delete=False, dir=os.environ.get('PYVC_TMP', None)) as f:
+    f.write(text)
+    path = f.name
+  try:
+    p = subprocess.run(cmd + [path], capture_output=True, text=True, timeout=600)
+    out = p.stdout.strip().splitlines()
+    return out[0] if out and out[0] in ('unsat', 'sat') else 'unknown'
+  except Exception:
+    return 'unknown'
+  finally:
+    try:
+      os.unlink(path)
+    except OSError:
+      pass
 
 
 def model_dict(m):
